@@ -36,6 +36,7 @@ class DHarness(kc.Harness):
 
     def __init__(self, case, env_factory=None):
         self.dlog = []
+        self.nsched = 0
         self.cur = None
         self.step_no = 0
         super().__init__(case, env_factory)
@@ -80,6 +81,7 @@ class DHarness(kc.Harness):
         from onl.sim.events import NORMAL
         pr = NORMAL if priority is None else priority
         self.dlog.append(["sched", self.sid_of(event), self.oc(event), int(pr), kc.qs(delay), type(event).__name__, self.now()])
+        self.nsched += 1
         return super()._schedule(event, priority, delay)
 
     def _step(self):
@@ -170,7 +172,7 @@ class DHarness(kc.Harness):
             e = self.read(ins[1], regs)
             if isinstance(e, Event):
                 pre = self.snap(e)
-                n, nd = len(self.trace), sum(1 for x in self.dlog if x[0] == "sched")
+                n, nd = len(self.trace), self.nsched
                 arg = self.ev(ins[2], regs)
                 r = yield from super().exec_i(ins, regs)
                 post = self.snap(e)
@@ -178,7 +180,7 @@ class DHarness(kc.Harness):
                 for t in self.trace[n:]:
                     if t[0] == "log" and t[3][1][0] == ["int", 2]:
                         raised = t[3][1][1]
-                nsched = sum(1 for x in self.dlog if x[0] == "sched") - nd
+                nsched = self.nsched - nd
                 self.dlog.append(["trig", ins[0], self.sid_of(e), type(e).__name__, pre, post, raised, self.conv(arg),
                                   nsched, self.now()])
                 return r
@@ -607,7 +609,10 @@ class C02(Prop):
     n_thorough = 16000
     shard = 70
     case_timeout = 30
-    nontrivial_rule = ("45% hand-shaped families (double triggers of the opposite kind in one instant with 0-3 waiters and late "
+    nontrivial_rule = ("LONG families (corpus/C02/long-*.json on every run + 0.6% of the generated cases): one process yielding 1200 / "
+                       "3000 already processed events (timeout with value, succeeded, failed-and-defused, finished children) back to "
+                       "back in one resumption, a 1500-deep chain of zero-delay hand-overs, a run of > 5000 steps; otherwise "
+                       "45% hand-shaped families (double triggers of the opposite kind in one instant with 0-3 waiters and late "
                        "registrations; children returning 0/None/k or raising with pending, processed and same-instant joiners and "
                        "run(until=child); value-carrying timeouts incl. 0 with waiters before/at/after processing; failures nobody or "
                        "not everybody handles), 55% random kernel_common script families biased to shared events, joins, failures and "
@@ -645,7 +650,17 @@ class C02(Prop):
         from props import kernel_tie
         kernel_tie.write_extracted_kernel(fw.REPO, fw.COQ)
 
+    # LONG-STREAK families (kernel_common.long_case): rare among the generated cases (they are expensive), never among the
+    # first few (the framework stores the first cases verbatim in the evidence); fixed instances are in corpus/C02/long-*.json
+    p_long = 0.006
+    _ngen = 0
+
     def gen_case(self, rng, tier):
+        self._ngen += 1
+        if self._ngen > 6 and rng.random() < self.p_long:
+            case = kc.long_case(rng, rng.choice(["streak", "streak", "streak", "chain", "longrun"]))
+            case["kind"] = "long"
+            return case
         if rng.random() < 0.45:
             case = rng.choice(SHAPED)(rng)
             case["kind"] = "shaped"
@@ -700,6 +715,8 @@ class C02(Prop):
         if case.get("kind") == "direct":
             return ["direct:" + case["name"]]
         keys = [case.get("kind", "random")]
+        if case.get("long"):
+            keys.append("long:" + case["long"])
         d = obs.get("dlog", [])
         steps = [x for x in d if x[0] == "step"]
         mw = max([sum(1 for w in (x[6] or []) if w[0] == "resume") for x in steps] or [0])
@@ -729,7 +746,14 @@ class C02(Prop):
             if it[0] != "exec":
                 keys.append("plan-" + it[0])
         n = len(steps)
-        keys.append("steps=%s" % ("<10" if n < 10 else "<30" if n < 30 else "30+"))
+        keys.append("steps=%s" % ("<10" if n < 10 else "<30" if n < 30 else "30+" if n < 1000 else "1000+"))
+        streak, best = 0, 0
+        for x in d:
+            if x[0] == "yield":
+                streak = streak + 1 if x[3] else 0
+                best = max(best, streak)
+        if best >= 2:
+            keys.append("processed-yield-streak=%s" % ("<10" if best < 10 else "<1000" if best < 1000 else "1000+"))
         return sorted(set(keys))
 
     # ---- the property, as an oracle over the delivery log -------------------------------------------------------
